@@ -121,7 +121,8 @@ func (t *RTPTransport) ParseTransport(rtpType int, ts string) (err error) {
 		k, v, _ := scan.EqualPair.Scan(token)
 		switch k {
 		case "mode":
-			if v == "record" {
+			// RFC 2326 12.39 写作 mode="RECORD"，常见客户端写作 mode=record
+			if strings.EqualFold(v, "record") {
 				t.Mode = RecordSession
 			} else {
 				t.Mode = PlaySession
